@@ -8,7 +8,7 @@ def _errtag(e):
     return {RuntimeError: "runtime", KeyError: "key", IndexError: "index", TypeError: "type", ValueError: "value", AttributeError: "attribute"}.get(type(e), type(e).__name__)
 
 def gen(rng: random.Random, tier: str):
-    n = {"quick": 1500, "thorough": 30000}[tier]
+    n = {"quick": 6000, "thorough": 60000}[tier]
     for _ in range(n):
         universe = list(range(100, 100 + rng.randint(2, 8)))
         v1 = sorted(rng.sample(universe, rng.randint(1, len(universe))))
@@ -20,10 +20,11 @@ def gen(rng: random.Random, tier: str):
         if mode == "both+vocab": ids = [v1[k] for k in nums]
         f1 = [rng.randint(-5, 5) for _ in range(L)]
         ops = []; cur = L
+        alts = [v1] + [sorted(rng.sample(universe, rng.randint(1, len(universe)))) for _ in range(2)]      # a small pool, so the same alternate vocabulary recurs within a history
         for _k in range(rng.randint(1, 6)):
             kind = rng.choice(["ids", "numbers", "numbers", "getitem", "withvocab", "fields", "len", "ranks", "ranks", "copyids", "copynums", "copyboth", "copyidsvocab", "dropfield", "setfield"])
             if kind == "numbers":
-                alt = rng.choice([None, v1, sorted(rng.sample(universe, rng.randint(1, len(universe))))])
+                alt = rng.choice([None] + alts)
                 ops.append({"op": "numbers", "vocab": alt, "missing": rng.choice(["error", "negative"])})
             elif kind == "getitem":
                 style = rng.choice(["idx", "mask", "slice"])
@@ -33,14 +34,14 @@ def gen(rng: random.Random, tier: str):
                 else: sel = [rng.randrange(cur) for _ in range(rng.randint(0, cur))] if cur else []
                 ops.append({"op": "getitem", "sel": sel, "style": style}); cur = len(sel)
             elif kind == "withvocab":
-                ops.append({"op": "withvocab", "vocab": rng.choice([v1, sorted(rng.sample(universe, rng.randint(1, len(universe))))])})
+                ops.append({"op": "withvocab", "vocab": rng.choice(alts)})
             elif kind in ("copyids", "copyboth", "copyidsvocab", "copynums"):
                 # the copy constructor with replaced identifiers / numbers (same length most of the time, another length sometimes)
                 m = cur if rng.random() < 0.6 else rng.randint(0, 5)
                 o = {"op": kind}
                 if kind != "copynums": o["ids"] = rng.sample(universe + [999], min(m, len(universe) + 1)); m = len(o["ids"])
                 if kind in ("copynums", "copyboth"): o["nums"] = [rng.randrange(len(v1)) for _ in range(m if kind == "copyboth" or rng.random() < 0.7 else rng.randint(0, 5))]
-                if kind == "copyidsvocab": o["vocab"] = rng.choice([v1, sorted(rng.sample(universe, rng.randint(1, len(universe))))])
+                if kind == "copyidsvocab": o["vocab"] = rng.choice(alts)
                 ops.append(o)
                 if kind == "copynums": cur = cur          # a length mismatch is rejected; the list keeps its length
                 else: cur = m
